@@ -4,7 +4,9 @@ package main
 // (`if op.Group == "" { if op.Action != "set" && … } else { if op.Action != "expire" && … }`).
 
 import (
+	"bytes"
 	"go/ast"
+	"go/printer"
 	"go/token"
 	"strconv"
 )
@@ -67,6 +69,45 @@ func c16Facts(l *leanDefs) {
 	l.def("c16UngroupedActions", "List String", leanStrList(ungrouped), src)
 	l.def("c16GroupedActions", "List String", leanStrList(grouped), src)
 	l.def("c16Stale", "Bool", map[bool]string{true: "true", false: "false"}[stale], src)
+	l.def("c16ReaderLoop", "List String", leanStrList(c16ReaderLoop()), "pkg/metric_storage/operation/operation.go MetricOperationsFromReader")
+}
+
+// c16ReaderLoop reads the head of the loop of MetricOperationsFromReader
+//
+//	for { var op MetricOperation; if err := dec.Decode(&op); <A> { break } else if <B> { return nil, err } … }
+//
+// into [init, A, "break", B, "return nil, err"]; any other shape gives ["?"]. The byte-level model of the
+// reader (HookOutput.loop) ends quietly on io.EOF only and fails on every other error of Decode.
+func c16ReaderLoop() []string {
+	str := func(n any) string {
+		var b bytes.Buffer
+		if printer.Fprint(&b, token.NewFileSet(), n) != nil {
+			return "?"
+		}
+		return b.String()
+	}
+	fd := findFunc("pkg/metric_storage/operation/operation.go", "", "MetricOperationsFromReader")
+	if fd == nil || fd.Body == nil {
+		return []string{"?"}
+	}
+	for _, s := range fd.Body.List {
+		fs, ok := s.(*ast.ForStmt)
+		if !ok || fs.Cond != nil || fs.Init != nil || fs.Post != nil || fs.Body == nil {
+			continue
+		}
+		for _, b := range fs.Body.List {
+			is, ok := b.(*ast.IfStmt)
+			if !ok || is.Init == nil {
+				continue
+			}
+			el, ok := is.Else.(*ast.IfStmt)
+			if !ok || el.Else != nil || el.Init != nil || len(is.Body.List) != 1 || len(el.Body.List) != 1 {
+				return []string{"?"}
+			}
+			return []string{str(is.Init), str(is.Cond), str(is.Body.List[0]), str(el.Cond), str(el.Body.List[0])}
+		}
+	}
+	return []string{"?"}
 }
 
 // C16 skeletons (tie T3): the vault holds its lock from the lookup of a collector to the store of the
